@@ -3,6 +3,7 @@ package meta
 import (
 	"errors"
 	"fmt"
+	"sort"
 
 	"github.com/freeconf/yang/val"
 )
@@ -42,7 +43,7 @@ func (c *compiler) module(y *Module) error {
 			return err
 		}
 	}
-	for _, i := range y.identities {
+	for _, i := range identitiesInOrder(y.identities) {
 		if err := c.compile(i); err != nil {
 			return err
 		}
@@ -63,13 +64,28 @@ func (c *compiler) module(y *Module) error {
 	return c.compile(y)
 }
 
+// identitiesInOrder hands out the identities by name, so that every load of a module links
+// base and derived identities in the same order (a map is iterated in a different one each time)
+func identitiesInOrder(ids map[string]*Identity) []*Identity {
+	names := make([]string, 0, len(ids))
+	for name := range ids {
+		names = append(names, name)
+	}
+	sort.Strings(names)
+	ordered := make([]*Identity, len(names))
+	for i, name := range names {
+		ordered[i] = ids[name]
+	}
+	return ordered
+}
+
 func (c *compiler) compileImport(m *Module) error {
 	// modules may import each other (or themselves), visit each one once
 	if _, seen := c.importsCompiled[m]; seen {
 		return nil
 	}
 	c.importsCompiled[m] = struct{}{}
-	for _, i := range m.identities {
+	for _, i := range identitiesInOrder(m.identities) {
 		if err := c.compile(i); err != nil {
 			return err
 		}
